@@ -2766,7 +2766,20 @@ fn wait_out(r: std::io::Result<a10::process::WaitInfo>, si: &Option<Si>, fails: 
             let code = dbg_num(&format!("{:?}", w.code()));
             let status = w.status().into_raw();
             if let Some((s, c, p, u, st)) = si {
-                check(fails, signo == i64::from(*s) && code == i64::from(*c) && w.pid() == *p && w.real_user_id() == *u && status == *st, "C13/decode/waitinfo", "WaitInfo accessors differ from the siginfo_t the kernel wrote".into());
+                check(fails, signo == i64::from(*s) && code == i64::from(*c) && w.pid() == *p && w.real_user_id() == *u, "C13/decode/waitinfo", "WaitInfo accessors differ from the siginfo_t the kernel wrote".into());
+                // The ExitStatus must say what wait(2) / std::process would say about this child.
+                use std::os::unix::process::ExitStatusExt;
+                let es = w.status();
+                let sig_ok = (1..=64).contains(st);
+                let good = match *c {
+                    libc::CLD_EXITED => es.code() == Some(st & 0xff) && es.signal().is_none(),
+                    libc::CLD_KILLED => !sig_ok || (es.signal() == Some(*st) && !es.core_dumped() && es.code().is_none()),
+                    libc::CLD_DUMPED => !sig_ok || (es.signal() == Some(*st) && es.core_dumped()),
+                    libc::CLD_STOPPED | libc::CLD_TRAPPED => !sig_ok || es.stopped_signal() == Some(*st),
+                    libc::CLD_CONTINUED => es.continued(),
+                    _ => status == *st,
+                };
+                check(fails, good, "C13/decode/wait-status", format!("WaitInfo::status() for si_code {c}, si_status {st} is {es:?} (raw {status:#x}): not what wait(2) reports for that child"));
             }
             format!("ok pid={} uid={} signo={signo} status={status} code={code}", w.pid(), w.real_user_id())
         }
@@ -3850,7 +3863,8 @@ impl EncCase {
                         _ => rng.below(70000) as i32,
                     }
                 };
-                format!("on={on} wopt={wopt} si={}:{}:{}:{}:{}", *rng.pick(&[libc::SIGCHLD, 0, 64, 1000]), rng.range(0, 8), i(rng), g_u32(rng), i(rng))
+                let st = if rng.chance(2, 3) { rng.range(0, 130) as i32 } else { i(rng) };
+                format!("on={on} wopt={wopt} si={}:{}:{}:{}:{st}", *rng.pick(&[libc::SIGCHLD, 0, 64, 1000]), rng.range(0, 8), i(rng), g_u32(rng))
             }
             "sigrecv" => {
                 res = 128;
